@@ -300,6 +300,12 @@ Section Send.
   (* goahttp.ErrorEncoder(encoder, nil)(ctx, w, err): the ErrorResponse is a struct *)
   Definition error_encoder (accept ct : bytes) (w : writer) (g : goerr) : option kind * option bytes * writer :=
     send accept ct w (http_status (error_response g)) (VStruct 0).
+
+  (* the default muxer's NotFound handler (http/mux.go): Accept from the request, no designed
+     type, nothing pre-set; enc := ResponseEncoder(ctx, w); w.WriteHeader(404);
+     enc.Encode(NewErrorResponse(...)) with the Encode error discarded *)
+  Definition mux_not_found (accept : bytes) : option kind * option bytes * writer :=
+    send accept [] (w_new []) 404 (VStruct 0).
 End Send.
 
 (* ---- hypotheses on the parser oracle under which the round-trip theorems are stated;
